@@ -10,7 +10,7 @@ for n in $NAMES; do
   git -C /repo worktree add -q --detach $WT HEAD || continue
   if ! git -C $WT apply --3way /verif/seeded/$n/patch.diff >/dev/null 2>&1; then
      # a later fix: commit rewrote the same lines: use the port of the change onto the fixed code, if one was made
-     git -C $WT checkout -q -- . ; PORT=$(ls /verif/seeded/$n/patch_ported*.diff 2>/dev/null | tail -1)
+     git -C $WT reset -q --hard ; PORT=$(ls /verif/seeded/$n/patch_ported*.diff 2>/dev/null | tail -1)
      if [ -z "$PORT" ] || ! git -C $WT apply "$PORT" >/dev/null 2>&1; then
         echo "$n: PATCH DOES NOT APPLY"; git -C /repo worktree remove --force $WT; continue
      fi
